@@ -91,7 +91,7 @@ var propsMeta = map[string]PropMeta{
 		Real: append([]string{"unbounded.Channel", "stats.GetGroups", "diskwriter client lifecycle", "webserver WHIP handlers"}, confReal...), Stub: confStub,
 	},
 	"C14": {
-		Rule: "membership scenario: joins, leaves, kicks, reconnects under the same id, permission and status changes by 2-6 clients in one or two groups; oracle: every client's view built from the 'user' add/change/delete events it received equals the server-side truth at every quiescent point, events for one user arrive in order, and no event of another group or from before a re-join leaks; a group's description file may be unreadable for a while (joins and updates look at it meanwhile) and a client that was told it had joined, and has not left, must be listed by the group of that name; several clients share one entry with an explicit permission list. whip-expiry scenario: WHIP sessions are created and deleted next to group.Update() on a group whose history age has elapsed; once every session has been deleted no WHIP client is a member of any group. Non-trivial: more than one view checked after at least one context switch (membership); a session created and deleted (whip-expiry)." + schedRule,
+		Rule: "membership scenario: joins, leaves, kicks, reconnects under the same id, permission and status changes by 2-6 clients in one or two groups; oracle: every client's view built from the 'user' add/change/delete events it received equals the server-side truth at every quiescent point, events for one user arrive in order, and no event of another group or from before a re-join leaks; a group's description file may be unreadable for a while (joins and updates look at it meanwhile) and a client that was told it had joined, and has not left, must be listed by the group of that name; several clients share one entry with an explicit permission list. reconnect scenario: a member's connection is cut, closed or leaves, and a second connection joins under the same id straight away (retrying while the id is still in use); every watcher's list equals the membership afterwards. whip-expiry scenario: WHIP sessions are created and deleted next to group.Update() on a group whose history age has elapsed; once every session has been deleted no WHIP client is a member of any group. Non-trivial: more than one view checked after at least one context switch (membership); a session created and deleted (whip-expiry)." + schedRule,
 		Real: confReal, Stub: confStub,
 	},
 	"C15": {
